@@ -3,6 +3,8 @@ package main
 import (
 	"fmt"
 	"os"
+	"runtime"
+	"runtime/debug"
 	"strconv"
 	"strings"
 
@@ -26,6 +28,8 @@ func main() {
 	case "replay":
 		os.Exit(fw.ReplayMain(os.Args[2]))
 	case "worker":
+		runtime.GOMAXPROCS(2)
+		debug.SetGCPercent(600)
 		// worker <id> <tier> <shard> <n> <startSpace> <startIndex> [only] [careful] [verbose] [skip=a#1,b#2]
 		sh, _ := strconv.Atoi(os.Args[4])
 		n, _ := strconv.Atoi(os.Args[5])
